@@ -34,7 +34,8 @@
 ** successful fopen: by sclose, del, leaving a with block, or re-opening.
 **
 ** Parameters: mode=bfs|ladder (ladder: print_to of one N-character conversion, N = 0..ladder_n
-**             and larger sizes, read back with sread and scan_from)
+**             and larger sizes, read back with sread and scan_from; then the byte sweep: all 256
+**             byte values written and read one byte at a time on file / tmpfile / fmemopen / pipe)
 **             depth=N  first=<ops> | notfirst=<ops> (partition of the history space by
 ** the first operation; comma separated alphabet indices)  alpha=full|lite  whitebox=1|0
 **             probe=1|0 (seof/stell compared with the twin after every transition)
@@ -218,7 +219,7 @@ static FILE* T;                  /* the twin stream */
 static unsigned char chunk3[BIG];
 static const unsigned char* chunkp[4];
 static const size_t chunklen[4] = { 0, 1, 3, BIG };
-static const char* chunkname[4] = { "\"\"", "\"x\"", "\"\\0y\\0\"", "8193-byte block" };
+static const char* chunkname[4] = { "\"\"", "\"\\xff\"", "\"\\0y\\0\"", "8193-byte block" };
 static const size_t rdlen[4] = { 0, 1, 3, BIG };
 static const int origins[3] = { SEEK_SET, SEEK_CUR, SEEK_END };
 static const char* originname[3] = { "SEEK_SET", "SEEK_CUR", "SEEK_END" };
@@ -253,7 +254,7 @@ static int nt_flag;
 static unsigned char firstmask[MAXOPS]; static int have_first;
 
 /* evidence counters */
-static uint64_t n_readback_bytes, n_closed_ops, n_disk_compares, n_scan_ok, n_with_exit, n_cfail, n_fclose_seen, n_fopen_seen, n_env, n_diverged, n_probes, n_destruct, n_ladder;
+static uint64_t n_readback_bytes, n_closed_ops, n_disk_compares, n_scan_ok, n_with_exit, n_cfail, n_fclose_seen, n_fopen_seen, n_env, n_diverged, n_probes, n_destruct, n_ladder, n_sweep;
 
 static struct { int fclose, fopen, silent; } E;   /* expectations for the operation in progress */
 static char site[96];
@@ -1080,11 +1081,217 @@ out:
   return bad;
 }
 
+/* ---- byte sweep: every byte value, written and read one byte at a time, on every backend -- */
+
+/*
+** A 256-byte block holding every byte value once (layout 0: value i at offset i; layout 1: reversed,
+** 0xFF first) is written to a File with one swrite or with 256 single-byte swrites, and read back
+** with sread(f, &b, 1) byte by byte (result, byte, seof, stell after each; one more read at the end),
+** then with 2-, 3- and 255-byte reads starting at each offset around the 0xFF byte.  Backends: a
+** regular file ("w+b", seek back), the same re-opened "rb", tmpfile(), fmemopen(), a pipe (File
+** around fdopen'ed ends).  The twin is the same kind of stream driven with plain stdio; what the
+** library returns must equal what stdio returns there, and the bytes must be the bytes written.
+*/
+enum { B_FILE, B_REOPEN, B_TMPFILE, B_FMEMOPEN, B_PIPE, NBACKENDS };
+static const char* backendname[NBACKENDS] = { "file-w+b", "file-reopen-rb", "tmpfile", "fmemopen", "pipe" };
+static char sweep_base[64];
+
+static int SV(const char* fmt_symptom, int byte, const char* fmt, ...) {
+  char sy[64];
+  if (byte >= 0) snprintf(sy, sizeof sy, fmt_symptom, byte); else snprintf(sy, sizeof sy, "%s", fmt_symptom);
+  va_list ap; va_start(ap, fmt);
+  char* d = vf_vfmt(fmt, ap);
+  va_end(ap);
+  snprintf(labelbuf, sizeof labelbuf, "%s/%s", sweep_base, sy);
+  vf_violation(labelbuf, NULL, "%s", d);
+  free(d);
+  return 1;
+}
+
+#define SSTEP(what, stmt) do { ledger_reset(); e = LIB(stmt); if (L.null_arg || L.stale) { ledger_fault(); return 1; } \
+    if (e != NULL) return SV("raised", -1, "%s raised %s", what, vf_exc_name(e)); } while (0)
+
+/* compare seof / stell of f with feof / ftell of t */
+static int sweep_flags(var f, FILE* t, int seekable, const char* when, int byte) {
+  var e;
+  pr_eof = -1;
+  SSTEP("seof", pr_eof = seof(f) ? 1 : 0);
+  vf.evaluations++;
+  if (pr_eof != (feof(t) ? 1 : 0)) return SV("seof-differs-after-byte-0x%02x", byte, "seof = %d %s, feof on the twin = %d", (int)pr_eof, when, feof(t) ? 1 : 0);
+  if (seekable) {
+    g_ret = -777;
+    SSTEP("stell", g_ret = stell(f));
+    long tt = ftell(t);
+    vf.evaluations++;
+    if (g_ret != tt) return SV("stell-differs-after-byte-0x%02x", byte, "stell = %" PRId64 " %s, ftell on the twin = %ld", (int64_t)g_ret, when, tt);
+  }
+  return 0;
+}
+
+static int sweep_write(var f, FILE* t, const unsigned char* blk, int single, int seekable) {
+  var e;
+  if (!single) {
+    g_ret = -777;
+    SSTEP("swrite(256)", g_ret = (int64_t)swrite(f, (void*)blk, 256));
+    if (fwrite(blk, 256, 1, t) != 1) infra("sweep: fwrite twin");
+    vf.evaluations++;
+    if (g_ret != 1 && g_ret != 256) return SV("swrite-256/return-count", -1, "swrite of the 256-byte block returned %" PRId64, (int64_t)g_ret);
+  } else for (int i = 0; i < 256; i++) {
+    g_ret = -777;
+    SSTEP("swrite(1)", g_ret = (int64_t)swrite(f, (void*)(blk + i), 1));
+    if (fwrite(blk + i, 1, 1, t) != 1) infra("sweep: fwrite twin");
+    vf.evaluations++;
+    if (g_ret != 1) return SV("swrite-1-byte-0x%02x/return-count", blk[i], "swrite of the single byte 0x%02x returned %" PRId64, blk[i], (int64_t)g_ret);
+  }
+  return sweep_flags(f, t, seekable, "after writing the block", -1);
+}
+
+static int sweep_read(var f, FILE* t, const unsigned char* blk, int seekable) {
+  var e;
+  char when[64];
+  for (int i = 0; i <= 256; i++) {               /* the 257th read meets end-of-file */
+    unsigned char rb = 0xAA, tb = 0xAA;
+    g_ret = -777;
+    snprintf(when, sizeof when, "after sread(1) at offset %d", i);
+    ledger_reset(); e = LIB(g_ret = (int64_t)sread(f, &rb, 1));
+    if (L.null_arg || L.stale) { ledger_fault(); return 1; }
+    size_t tr = fread(&tb, 1, 1, t);
+    if (tr != (i < 256 ? 1u : 0u) || (i < 256 && tb != blk[i])) infra("sweep: twin read %zu byte 0x%02x at offset %d", tr, tb, i);
+    vf.evaluations++;
+    int bv = i < 256 ? blk[i] : -1;
+    if (e != NULL) return SV(i < 256 ? "sread-1-byte-0x%02x/raised" : "sread-1-at-end/raised", bv, "sread(f, &b, 1) at offset %d (byte 0x%02x) raised %s, fread on the twin returns %zu", i, i < 256 ? blk[i] : 0, vf_exc_name(e), tr);
+    if (g_ret != (int64_t)tr) return SV(i < 256 ? "sread-1-byte-0x%02x/return-count" : "sread-1-at-end/return-count", bv, "sread(f, &b, 1) at offset %d (byte 0x%02x) returned %" PRId64 ", fread on the twin returns %zu", i, i < 256 ? blk[i] : 0, (int64_t)g_ret, tr);
+    if (i < 256 && rb != blk[i]) return SV("sread-1-byte-0x%02x/byte-differs", bv, "sread(f, &b, 1) at offset %d read 0x%02x, 0x%02x was written", i, rb, blk[i]);
+    if (i < 256) n_readback_bytes++;
+    if (sweep_flags(f, t, seekable, when, bv)) return 1;
+  }
+  if (!seekable) return 0;
+  /* 2-, 3- and 255-byte reads starting at each offset around the 0xFF byte */
+  int pff = 0; while (blk[pff] != 0xFF) pff++;
+  static const size_t lens[3] = { 2, 3, 255 };
+  for (int start = pff - 3; start <= pff + 1; start++) {
+    if (start < 0 || start > 255) continue;
+    for (int li = 0; li < 3; li++) {
+      size_t n = lens[li], avail = (size_t)(256 - start), got = n < avail ? n : avail;
+      unsigned char rbuf2[256 + GUARD], tbuf2[256];
+      memset(rbuf2, 0xAA, sizeof rbuf2); memset(tbuf2, 0xAA, sizeof tbuf2);
+      SSTEP("sseek", sseek(f, start, SEEK_SET));
+      if (fseek(t, start, SEEK_SET) != 0) infra("sweep: fseek twin");
+      g_ret = -777;
+      SSTEP("sread", g_ret = (int64_t)sread(f, rbuf2, n));
+      size_t tr = fread(tbuf2, n, 1, t);
+      if (tr != (got == n ? 1u : 0u)) infra("sweep: twin fread(%zu) at %d returned %zu", n, start, tr);
+      vf.evaluations++;
+      if (g_ret != (int64_t)tr && g_ret != (int64_t)got) return SV("sread-%d/return-count", (int)n, "sread(%zu) at offset %d returned %" PRId64 ", fread on the twin returns %zu (%zu bytes there)", n, start, (int64_t)g_ret, tr, got);
+      if (got == n && memcmp(rbuf2, blk + start, n) != 0) return SV("sread-%d/bytes-differ", (int)n, "sread(%zu) at offset %d did not return the bytes written", n, start);
+      for (size_t k = n; k < n + GUARD && k < sizeof rbuf2; k++) if (rbuf2[k] != 0xAA) return SV("sread-%d/buffer-overrun", (int)n, "sread(%zu) wrote past the buffer", n);
+      if (got == n) n_readback_bytes += n;
+      snprintf(when, sizeof when, "after sread(%zu) at offset %d", n, start);
+      if (sweep_flags(f, t, 1, when, -1)) return 1;
+    }
+  }
+  return 0;
+}
+
+static int sweep_case(int backend, int layout, int single) {
+  unsigned char blk[256];
+  for (int i = 0; i < 256; i++) blk[i] = (unsigned char)(layout ? 255 - i : i);
+  snprintf(sweep_base, sizeof sweep_base, "file/byte-sweep/%s", backendname[backend]);
+  snprintf(site, sizeof site, "%s", sweep_base); vf.phase = site;
+  unlink(rpath[0]); unlink(tpath[0]);
+  nlive = 0; ledger_reset(); model_close();
+  var e; int bad = 0;
+  FILE* t = NULL, *t2 = NULL;
+  static char membuf[2][1024];
+
+  if (backend == B_FILE || backend == B_REOPEN) {
+    var f = new_raw(File);
+    do {
+      ledger_reset(); e = LIB(sopen(f, $S(rpath[0]), $S("w+b")));
+      if (e) { bad = SV("raised", -1, "sopen raised %s", vf_exc_name(e)); break; }
+      t = fopen(tpath[0], "w+b");
+      if ((bad = sweep_write(f, t, blk, single, 1))) break;
+      if (backend == B_FILE) {
+        ledger_reset(); e = LIB(sseek(f, 0, SEEK_SET)); fseek(t, 0, SEEK_SET);
+        if (e) { bad = SV("raised", -1, "sseek raised %s", vf_exc_name(e)); break; }
+      } else {
+        ledger_reset(); e = LIB({ sclose(f); sopen(f, $S(rpath[0]), $S("rb")); });
+        fclose(t); t = fopen(tpath[0], "rb");
+        if (e) { bad = SV("raised", -1, "sclose/sopen raised %s", vf_exc_name(e)); break; }
+      }
+      if ((bad = sweep_read(f, t, blk, 1))) break;
+      ledger_reset(); e = LIB(sclose(f));
+      if (e) { bad = SV("raised", -1, "sclose raised %s", vf_exc_name(e)); break; }
+      fclose(t); t = NULL;
+      size_t rn; int rex; unsigned char* rb = slurp(rpath[0], &rn, &rex);
+      n_disk_compares++; vf.evaluations++;
+      if (!rex || rn != 256 || memcmp(rb, blk, 256) != 0) bad = SV("disk-bytes-differ", -1, "after sclose the file does not hold the 256 bytes written (%zu bytes)", rn);
+      free(rb);
+    } while (0);
+    in_lib = 1; e = VF_CATCH(del_raw(f)); in_lib = 0;
+  } else if (backend == B_PIPE) {
+    int pr[2], pt[2];
+    if (pipe(pr) != 0 || pipe(pt) != 0) { perror("h_file: pipe"); rm_scratch(); _exit(2); }
+    FILE* rw = fdopen(pr[1], "wb"), *rr = fdopen(pr[0], "rb");
+    t2 = fdopen(pt[1], "wb"); t = fdopen(pt[0], "rb");
+    live[nlive++] = rw; live[nlive++] = rr;
+    var fw = $(File, rw), fr = $(File, rr);
+    do {
+      if ((bad = sweep_write(fw, t2, blk, single, 0))) break;
+      ledger_reset(); e = LIB(sclose(fw));
+      if (e) { bad = SV("raised", -1, "sclose of the write end raised %s", vf_exc_name(e)); break; }
+      fclose(t2); t2 = NULL;
+      if ((bad = sweep_read(fr, t, blk, 0))) break;
+      ledger_reset(); e = LIB(sclose(fr));
+      if (e) { bad = SV("raised", -1, "sclose of the read end raised %s", vf_exc_name(e)); break; }
+    } while (0);
+  } else {
+    FILE* rf = backend == B_TMPFILE ? tmpfile() : fmemopen(membuf[0], sizeof membuf[0], "w+b");
+    t = backend == B_TMPFILE ? tmpfile() : fmemopen(membuf[1], sizeof membuf[1], "w+b");
+    if (!rf || !t) { perror("h_file: tmpfile/fmemopen"); rm_scratch(); _exit(2); }
+    live[nlive++] = rf;
+    var f = $(File, rf);
+    do {
+      if ((bad = sweep_write(f, t, blk, single, 1))) break;
+      ledger_reset(); e = LIB(sseek(f, 0, SEEK_SET)); fseek(t, 0, SEEK_SET);
+      if (e) { bad = SV("raised", -1, "sseek raised %s", vf_exc_name(e)); break; }
+      if ((bad = sweep_read(f, t, blk, 1))) break;
+      ledger_reset(); e = LIB(sclose(f));
+      if (e) { bad = SV("raised", -1, "sclose raised %s", vf_exc_name(e)); break; }
+    } while (0);
+  }
+  if (t) fclose(t);
+  if (t2) fclose(t2);
+  if (!bad && nlive != 0) bad = SV("handle-leak", -1, "%d stream(s) still open after sclose", nlive);
+  while (nlive > 0) __real_fclose(live[--nlive]);
+  return bad;
+}
+#undef SSTEP
+
+static void sweep(void) {
+  int rb = -1, rl = -1, rs = -1;
+  int only = vf.replay && sscanf(vf.replay, "sweep backend=%d layout=%d single=%d", &rb, &rl, &rs) == 3;
+  if (vf.replay && !only) return;
+  for (int b = 0; b < NBACKENDS; b++) for (int l = 0; l < 2; l++) for (int sg = 0; sg < 2; sg++) {
+    if (only && (b != rb || l != rl || sg != rs)) continue;
+    vf_watchdog(60);
+    vf_set_cur("sweep backend=%d layout=%d single=%d | %s: all 256 byte values (%s) written with %s, read back with sread(f,&b,1) x 257, then 2/3/255-byte reads around the 0xFF byte",
+               b, l, sg, backendname[b], l ? "0xFF first" : "0xFF last", sg ? "256 x swrite(1)" : "one swrite(256)");
+    int bad = sweep_case(b, l, sg);
+    vf.executions++; vf.transitions++; n_sweep++;
+    if (!bad) { vf.states++; vf.nontrivial++; }
+    if (vf_want_sample()) vf_sample("%s", vf_cur);
+  }
+  vf_watchdog(0);
+  vf_cur_valid = 0;
+}
+
 static void ladder(void) {
   static const size_t big[] = { 511, 512, 513, 1023, 1024, 1025, 4095, 4096, 4097, 5000, 8191, 8192, 8193, 20000 };
   size_t maxsmall = (size_t)vf_param_i("ladder_n", 300);
   size_t rN = 0; int rv = -1;
   int only = vf.replay && sscanf(vf.replay, "ladder N=%zu variant=%d", &rN, &rv) == 2;
+  if (vf.replay && !only) return;
   for (size_t i = 0; i <= maxsmall + sizeof big / sizeof big[0]; i++) {
     size_t N = i <= maxsmall ? i : big[i - maxsmall - 1];
     for (int v = 0; v < 3; v++) {
@@ -1108,8 +1315,10 @@ int main(int argc, char** argv) {
   var roots[4] = { NULL, NULL, NULL, NULL };
   R = roots;
 
-  for (size_t i = 0; i < BIG; i++) chunk3[i] = (unsigned char)((i * 7 + 3) % 251);
-  chunkp[0] = (const unsigned char*)""; chunkp[1] = (const unsigned char*)"x";
+  /* every byte value occurs; period 509 (prime) so that a shift by a buffer size is visible */
+  for (size_t i = 0; i < BIG; i++) chunk3[i] = (unsigned char)(((i % 509) * 131 + 3) & 0xFF);
+  /* the single-byte chunk is 0xFF: the byte that equals EOF when it is kept in a signed char */
+  chunkp[0] = (const unsigned char*)""; chunkp[1] = (const unsigned char*)"\xff";
   chunkp[2] = (const unsigned char*)"\0y\0"; chunkp[3] = chunk3;
 
   build_alphabet(vf_param_is("alpha", "lite", "full"));
@@ -1130,6 +1339,8 @@ int main(int argc, char** argv) {
 
   if (vf_param_is("mode", "ladder", "bfs")) {
     ladder();
+    sweep();
+    vf_extra("byte_sweep_cases", "%" PRIu64, n_sweep);
     vf_extra("ladder_cases", "%" PRIu64, n_ladder);
     vf_extra("readback_bytes_compared", "%" PRIu64, n_readback_bytes);
     vf_extra("scan_from_roundtrips", "%" PRIu64, n_scan_ok);
